@@ -551,3 +551,117 @@ fn h_cmp_fs_read_small() {
     }
     core::mem::forget(r);
 }
+
+// ------------------------------------------------------------------------------------------
+// C08: totality on arbitrary (attacker-chosen) size tables, positions and offsets
+// ------------------------------------------------------------------------------------------
+/// table with 0..=3 entries, every field arbitrary
+fn any_table_untrusted() -> (Vec<u32>, usize, u32) {
+    let k: usize = kani::any();
+    kani::assume(k <= 3);
+    let mut v: Vec<u32> = Vec::with_capacity(3);
+    let a: u32 = kani::any();
+    let b: u32 = kani::any();
+    let c: u32 = kani::any();
+    if k >= 1 {
+        v.push(a);
+    }
+    if k >= 2 {
+        v.push(b);
+    }
+    if k >= 3 {
+        v.push(c);
+    }
+    let last: u32 = kani::any();
+    (v, k, last)
+}
+
+//@ props: C08
+//@ functions: <layers::compress::CompressionLayerReader<R> as std::io::Seek>::seek (all arms); SizesInfo::{max_uncompressed_pos, uncompressed_block_size_at, compressed_block_size_at}; sync_inner_with_uncompressed_pos; new_decompressor_at
+//@ bounds: production constants; size table of 0..=3 entries with ANY u32 values and ANY last_block_size (as parsed from an untrusted footer); reader Ready at ANY position; ANY SeekFrom with ANY offset; inner stream rejects invalid targets with an error
+//@ stubs: brotli -> position-only model; std::io::copy -> single maximal read; alloc::fmt::format; From<mla::Error> for io::Error
+//@ outside: results (only panic-freedom is claimed); tables with more than 3 entries
+//@ replay: verif_replay_compress::cmp_total op=seek k:usize a:u32 b:u32 c:u32 last:u32 upos:u64 which:u8 off:u64
+#[kani::proof]
+#[kani::unwind(5)]
+#[kani::stub(alloc::fmt::format, nofmt)]
+#[kani::stub(<std::io::Error as std::convert::From<crate::errors::Error>>::from, cheap_from)]
+#[kani::stub(std::io::copy, copy_one_read)]
+fn h_cmp_total_seek() {
+    let (v, k, last) = any_table_untrusted();
+    let upos: u64 = kani::any();
+    let mut r = mk_reader_ready(Abs::strict(1u64 << 40, 0), v, last, upos);
+    let which: u8 = kani::any();
+    let off: u64 = kani::any();
+    kani::cover!(k == 0, "empty size table");
+    kani::cover!(u64::from(last) > SPEC_BLOCK, "last block size larger than a block");
+    kani::cover!(which % 3 == 2 && (off as i64) < 0, "End with a negative offset");
+    unsafe { brotli::DEC_FULL = true };
+    let sf = match which % 3 {
+        0 => SeekFrom::Start(off),
+        1 => SeekFrom::Current(off as i64),
+        _ => SeekFrom::End(off as i64),
+    };
+    let s = r.seek(sf);
+    core::mem::forget(s);
+    core::mem::forget(r);
+}
+
+//@ props: C08
+//@ functions: <layers::compress::CompressionLayerReader<R> as std::io::Read>::read; pos_in_stream; SizesInfo lookups; then Seek::seek on the state an error leaves behind
+//@ bounds: production constants; size table of 0..=3 entries with ANY values; reader Ready at ANY position; one read of 0..=4 bytes, then seek(Start(0)) on whatever state is left (also after an error)
+//@ stubs: brotli -> position-only model; std::io::copy -> single maximal read; alloc::fmt::format; From<mla::Error> for io::Error
+//@ outside: results (only panic-freedom is claimed)
+//@ replay: verif_replay_compress::cmp_total op=read k:usize a:u32 b:u32 c:u32 last:u32 upos:u64 blen:usize
+#[kani::proof]
+#[kani::unwind(5)]
+#[kani::stub(alloc::fmt::format, nofmt)]
+#[kani::stub(<std::io::Error as std::convert::From<crate::errors::Error>>::from, cheap_from)]
+#[kani::stub(std::io::copy, copy_one_read)]
+fn h_cmp_total_read() {
+    let (v, k, last) = any_table_untrusted();
+    let upos: u64 = kani::any();
+    let mut r = mk_reader_ready(Abs::strict(1u64 << 40, 0), v, last, upos);
+    let blen: usize = kani::any();
+    kani::assume(blen <= 4);
+    kani::cover!(k == 0, "empty size table");
+    kani::cover!(k == 1 && u64::from(last) > SPEC_BLOCK && upos >= SPEC_BLOCK, "position inside a declared-too-large last block");
+    unsafe { brotli::DEC_FULL = true };
+    let mut buf = [0u8; 4];
+    let rr = r.read(&mut buf[..blen]);
+    core::mem::forget(rr);
+    // the reader must remain usable (or refuse) after an error: no crash
+    let s2 = r.seek(SeekFrom::Start(0));
+    core::mem::forget(s2);
+    core::mem::forget(r);
+}
+
+//@ props: C08
+//@ functions: <layers::compress::CompressionLayerReader<R> as layers::traits::LayerReader>::initialize (footer location arithmetic up to the deserialisation call)
+//@ bounds: production constants; inner stream of ANY length 0..2^40 whose last four bytes (footer length field) are ARBITRARY; the stream reports end of data right after that field so that bincode fails fast
+//@ stubs: alloc::fmt::format; From<mla::Error> for io::Error
+//@ outside: bincode/serde internals on the table bytes themselves
+//@ replay: verif_replay_compress::cmp_init n:u64 lenfield:u32
+#[kani::proof]
+#[kani::unwind(6)]
+#[kani::stub(alloc::fmt::format, nofmt)]
+#[kani::stub(<std::io::Error as std::convert::From<crate::errors::Error>>::from, cheap_from)]
+fn h_cmp_init_total() {
+    let n: u64 = kani::any();
+    kani::assume(n < (1u64 << 40));
+    let mut a = Abs::strict(n, 0);
+    a.nondet_data = true;
+    a.max_calls = 1;
+    a.all_or_nothing = true;
+    a.max_seeks = 1;
+    let b: DynR = Box::new(a);
+    let mut r = CompressionLayerReader { state: CompressionLayerReaderState::Ready(b), sizes_info: None, underlayer_pos: 0 };
+    kani::cover!(n < 4, "stream shorter than the length field");
+    kani::cover!(n >= 4, "length field readable");
+    let res = r.initialize();
+    if let Ok(()) = &res {
+        assert!(false, "initialize succeeded although the table could not be read");
+    }
+    core::mem::forget(res);
+    core::mem::forget(r);
+}
